@@ -47,6 +47,64 @@ def families(tier, rng, idle=3000):
     return fam
 
 
+def limited_run(args):
+    """Real client and server, a speed limit whose pauses are longer than the timeout, and a peer that is never silent: the time
+    the limiter makes the server wait is the server's own - no timeout may fire, everything is delivered."""
+    kind, level, limit, tmo = args
+    import asyncio
+    from harness import clientdrv
+    from harness import world as W
+    skw, ukw = {}, {}
+    rd = kind in ("upload", "commands")
+    name = ("read" if rd else "write") + "_speed_limit" + ("_per_connection" if level.endswith("conn") else "")
+    (skw if level.startswith("server") else ukw)[name] = limit
+    users = [{"id": "u1", "login": "u1", "pw": "", "max": 0, "perms": [], "home": [], "base": ["A"], "kwargs": ukw}]
+    cfg = gen.std_cfg(ns=1, users=users, block=8, server_kwargs=skw, sock=tmo if kind != "commands" else 0, idle=tmo if kind == "commands" else 0)
+    payload = list(range(1, 41))
+    tree = {"d": [["A"]], "f": [{"p": ["A", "f"], "c": payload}]}
+    got = {}
+
+    async def sc(factory, w):
+        c = factory()
+        await c.connect("127.0.0.1", W.CTL_PORT)
+        await c.login("u1", "x")
+        if kind == "download":
+            buf = b""
+            async with c.download_stream("f") as st:
+                while True:
+                    b = await st.read(8)
+                    if not b:
+                        break
+                    buf += b
+            got["data"] = list(buf)
+        elif kind == "upload":
+            async with c.upload_stream("up") as st:
+                for k in range(0, 40, 8):
+                    await st.write(bytes(payload[k:k + 8]))
+            buf = b""
+            async with c.download_stream("up") as st:
+                while True:
+                    b = await st.read(64)
+                    if not b:
+                        break
+                    buf += b
+            got["data"] = list(buf)
+        else:
+            codes = []
+            for i in range(4):
+                code, _ = await c.command("MLST " + "n" * 60 + str(i), ("2xx", "5xx"))
+                codes.append(str(code))
+            got["data"] = codes
+        await c.quit()
+        return True
+
+    out = clientdrv.run_clients(cfg, tree, {1: sc})
+    if out["crash"]:
+        return {"crash": out["crash"]}
+    want = ["550"] * 4 if kind == "commands" else payload
+    return {"crash": None, "ok": not out["exc"] and not out["hang"] and got.get("data") == want, "exc": repr(out["exc"]) or out["hang"], "got": got.get("data")}
+
+
 def dev_cfg(pool):
     return gen.std_cfg(ns=2, idle=3000, wait=1000, sock=2000 if pool else 0)
 
@@ -61,11 +119,22 @@ def run(tier, seed):
         cfg = gen.std_cfg(ns=2, idle=idle, wait=wait, sock=sock)
         corecheck.validate(chk, cfg, BIGTREE, [s for _, s in fam], label="timeouts:%d:%d:%d" % (idle, wait, sock))
         n += len({repr(s) for _, s in fam})
+    # the limiter's pauses are not the peer's silence
+    lim = [(kind, level, limit, tmo) for kind in ("download", "upload", "commands") for level in ("server", "server_conn", "user", "user_conn")
+           for limit, tmo in ((16, 250), (8, 500), (16, 1000 if kind == "commands" else 125))]
+    for a, r in zip(lim, corecheck.pool().map(limited_run, lim, chunksize=2)):
+        if r["crash"]:
+            raise RuntimeError("harness failure in limited run %r: %s" % (a, r["crash"]))
+        chk.cov["evaluations"] += 1
+        if not r["ok"]:
+            chk.violation({"at": "gave-up-during-own-pause", "kind": a[0]}, r, {"kind": a[0], "level": a[1], "limit": a[2], "timeout_ms": a[3]})
+    n += len(lim)
     chk.cov["rule"] = ("corpus scripts with a stall (one long silence, stepping timer by timer, or commands kept just inside the idle "
                        "bound) inserted at every position, stalled uploads, downloads and listings whose reader stops reading, under "
                        "combinations of idle / wait-for-data / socket timeouts (each off or on); every event carries its virtual time, "
                        "the model admits a timeout action only at its exact deadline and rejects a quiescent state with an overdue "
-                       "deadline; distinct = schedules x timeout settings")
+                       "deadline; plus real client/server transfers and command sequences under a speed limit whose pauses exceed the "
+                       "idle / socket timeout with a peer that is never silent: nothing may time out; distinct = schedules x timeout settings")
     chk.cov["distinct_nontrivial"] = n
     chk.sample(fam[10][1])
     return chk.finish()
